@@ -124,13 +124,14 @@ structure State where
   socks : List Sock       -- every socket caddy has open (listenerPool count of a = #socks on a)
   mpool : Nat → Nat       -- usage pool referenced by guest modules (Provision +1, Cleanup −1)
   writers : Nat → Nat     -- logging.go `writers` usage pool
-  events : List Ev
+  events : List Ev        -- module events (Provision / Validate / Cleanup, writers, callbacks)
+  aevents : List Ev       -- app events (Start / Stop), kept apart: different identity, different proofs
   next : Nat              -- number of operations so far = number of the next context
   nseq : Nat              -- number of module instances created so far
 
 def State.init : State :=
   { raw := none, rawJSON := none, cur := none, socks := [], mpool := fun _ => 0,
-    writers := fun _ => 0, events := [], next := 0, nseq := 0 }
+    writers := fun _ => 0, events := [], aevents := [], next := 0, nseq := 0 }
 
 /-- per-attempt environment -/
 structure Env where
@@ -160,6 +161,8 @@ def incr (f : Nat → Nat) (k : Nat) : Nat → Nat := fun x => if x = k then f x
 def decr (f : Nat → Nat) (k : Nat) : Nat → Nat := fun x => if x = k then f x - 1 else f x
 
 def ev (s : State) (es : List Ev) : State := { s with events := s.events ++ es }
+
+def evA (s : State) (es : List Ev) : State := { s with aevents := s.aevents ++ es }
 
 /-- `modInfo.New()`: one more module instance exists -/
 def alloc (s : State) : State := { s with nseq := s.nseq + 1 }
@@ -334,15 +337,15 @@ def closeApp (cid name : Nat) (s : State) : State :=
     HTTP app (modules/caddyhttp/app.go:504-537): returns the bind error, nothing is closed. -/
 def startApp (cid : Nat) (blocked : List Nat) (a : App) (s : State) : State × Bool :=
   if a.isHttp then bindAll cid a blocked a.listen s
-  else if a.fault = 5 then (ev s [.start cid a.name, .startFail cid a.name], false)
+  else if a.fault = 5 then (evA s [.start cid a.name, .startFail cid a.name], false)
   else
-    match bindAll cid a blocked a.listen (ev s [.start cid a.name]) with
-    | (s', true) => (ev s' [.started cid a.name], true)
-    | (s', false) => (ev (closeApp cid a.name s') [.startFail cid a.name], false)
+    match bindAll cid a blocked a.listen (evA s [.start cid a.name]) with
+    | (s', true) => (evA s' [.started cid a.name], true)
+    | (s', false) => (evA (closeApp cid a.name s') [.startFail cid a.name], false)
 
 def stopApp (cid : Nat) (a : App) (s : State) : State :=
   if a.isHttp then closeApp cid a.name s
-  else ev (closeApp cid a.name s) [.stop cid a.name]
+  else evA (closeApp cid a.name s) [.stop cid a.name]
 
 def stopApps (cid : Nat) : List App → State → State
   | [], s => s
